@@ -101,6 +101,10 @@ def C08():
     jobs += _jobs("r_reg_spl", "arithmetic_suite", [3, 4], nmax=4, order_pairs=((1, 1),))[:-1]   # incl. equal grids held
     #                                                                                in distinct objects
     tot += r_reg.run_jobs(chk, u, "R-REG.refuse", jobs)
+    # an object that was assigned from another grid IS on that grid afterwards (else later operations compare against a
+    # stale grid: wrongly accepted with the former grid, wrongly refused with the real one)
+    tot += r_reg.run_jobs(chk, u, "R-REG.refuse", _jobs("r_reg_spl", "validity_suite", [3], nmax=3),
+                          view=r_reg.clause_view("different grid"))
     chk.note("regions_evaluated", tot)
     from . import controls
     controls.require(chk, ['R-GRD.a', 'R-GRD.c', 'R-GRD.fwd'])
@@ -733,6 +737,29 @@ def C11():
         jobs += _jobs("r_reg_val", "interpolate_suite", range(2, 5 if thorough else 4), nmax=4 if thorough else 3,
                       orders=(1, 2, 3, 4) if thorough else (1, 2, 3))
         total += r_reg.run_jobs(chk, u, "R-REG.val", jobs, view=r_reg.clause_view(*r_reg.ACC_CLAUSES))
+    # Grid(first, last) from a single-pass (input-iterator) range: its own unit, so that a constructor that stops
+    # compiling for input iterators is reported here instead of breaking every check
+    try:
+        ui = F.load("iter_off")
+        chk.units.append("iter_off")
+        total += r_reg.run_jobs(chk, ui, "R-REG.val", _jobs("r_reg_sup", "grid_suite", [], maxlen=4 if thorough else 3,
+                                                            accessors=False), view=r_reg.clause_view("single-pass"))
+    except F.ExtractError as ex:
+        import re as _re
+        m = None
+        for ln in ex.stderr.splitlines():
+            m = _re.match(r"(.+?):(\d+):(\d+): error: (.*)$", ln)
+            if m and C.in_repo(os.path.abspath(m.group(1))):
+                break
+            m = None
+        if m is None:
+            raise
+        chk.rule("R-REG.val", r_reg.RULE_TEXT.get("R-REG.val", r_reg.RULE_TEXT["*"]))
+        chk.bad("R-REG.val", "%s:%s" % (C.rel(os.path.abspath(m.group(1))), m.group(2)),
+                "bspline::support::Grid::Grid<T>", "input-iterators-rejected",
+                "Grid(first, last) no longer compiles for a single-pass (input-iterator) range, which the constructor "
+                "template accepted on the reference tree: valid input is refused at compile time (" + m.group(4) + ")",
+                witness=dict(unit="iter_off", compiler_output=ex.stderr[-1500:]))
     chk.note("regions_evaluated", total)
     chk.exhaustive = True
     r_small.r_thr(chk, _lib_units())
